@@ -51,6 +51,17 @@ namespace adept {
       }
     }
 
+    // BLAS accesses element i of a vector of length n with a negative
+    // increment inc at x[(n-1-i)*(-inc)], i.e. it expects a pointer to
+    // the element that is *last* logically (lowest in memory), while
+    // Array::const_data() points to the first logical element
+    template <typename T>
+    inline
+    const T*
+    blas_vector_start(const T* data, Index n, Index inc) {
+      return inc < 0 ? data + (n-1)*inc : data;
+    }
+
     // ---------------------------------------------------------------------
     // Underlying functions
     // ---------------------------------------------------------------------
@@ -85,7 +96,8 @@ namespace adept {
       }
       cppblas_gemv(order, BlasNoTrans, left.dimension(0), left.dimension(1), 
 		   1.0, left.const_data(), stride, 
-		   right.const_data(), right.offset(0), 
+		   blas_vector_start(right.const_data(), right.dimension(0), right.offset(0)),
+		   right.offset(0), 
 		   0.0, ans.data(), ans.offset(0));
       if (is_active
 #ifdef ADEPT_RECORDING_PAUSABLE
@@ -234,7 +246,8 @@ namespace adept {
       Array<1,T,LIsActive||RIsActive> ans(right.dimension(0));
       cppblas_symv(BlasRowMajor, uplo, right.dimension(0), 
 		   1.0, left_ptr, left_offset, 
-		   right.const_data(), right.offset(0), 
+		   blas_vector_start(right.const_data(), right.dimension(0), right.offset(0)),
+		   right.offset(0), 
 		   0.0, ans.data(), ans.offset(0));
       return ans;
     }
@@ -317,7 +330,8 @@ namespace adept {
       Array<1,T,(LIsActive||RIsActive)> ans(right.dimension(0));
       cppblas_gbmv(order, BlasNoTrans, left_dim, left_dim, LDiags, UDiags,
 		   1.0, left_start, left_offset+1,
-		   right.const_data(), right.offset(0), 
+		   blas_vector_start(right.const_data(), right.dimension(0), right.offset(0)),
+		   right.offset(0), 
 		   0.0, ans.data(), ans.offset(0));
       if (RIsActive) {
 	uIndex right_index = right.gradient_index();
@@ -387,7 +401,9 @@ namespace adept {
       for (Index i = 0; i < right.dimension(1); ++i) {
 	cppblas_gbmv(order, BlasNoTrans, left_dim, left_dim, LDiags, UDiags,
 		     1.0, left_start, left_offset+1,
-		     right.const_data()+i*right.offset(1), right.offset(0), 
+		     blas_vector_start(right.const_data()+i*right.offset(1),
+				       right.dimension(0), right.offset(0)),
+		     right.offset(0), 
 		     0.0, ans.data()+i*ans.offset(1), ans.offset(0));
       }
       return ans;
